@@ -151,6 +151,40 @@ func c01(c *Ctx) {
 	// requests of one pod are serialised (shared rule): without it an ADD of a new sandbox can be
 	// handed the address a DEL of the old one is about to release
 	c04R1(c)
+	// an acknowledged ADD keeps its address (the deferred roll-back stays idle on success) and its
+	// record names the sandbox it was given to (shared rules)
+	c04R4(c)
+	c05R1(c)
+	c01R10(c)
+}
+
+// R10: at start-up the pool decides what is idle only after the stored owners were restored.
+// Local.load marks addresses beyond the cap for disposal; the list of idle addresses it works on
+// is taken after every IP.Allocate(<stored pod>) of the restore loop, never before.
+func c01R10(c *Ctx) {
+	p := c.P
+	c.Rule("C01.R10", "Local.load computes the idle addresses it disposes of (Set.Idles) only after the stored owners were restored: no path leads from a call of Set.Idles to a restoring IP.Allocate")
+	fn := p.Func(eniPkg, "Local.load")
+	idles := p.Method(eniPkg, "Set", "Idles")
+	alloc := p.Method(eniPkg, "IP", "Allocate")
+	if fn == nil || idles == nil || alloc == nil {
+		c.Unres("C01.R10", "Local.load / Set.Idles / IP.Allocate", "not found")
+		return
+	}
+	is := p.CallsTo([]*FuncInfo{fn}, idles)
+	as := p.CallsTo([]*FuncInfo{fn}, alloc)
+	q := NewPathQuery(p, fn, nil)
+	for _, i := range is {
+		var w []ast.Node
+		for _, a := range as {
+			if w == nil {
+				w = q.Escapes(isExactly(i.Call), isExactly(a.Call), nil, nil)
+			}
+		}
+		c.Check(w == nil, "C01.R10", "load: idle addresses are listed after the owners were restored", p.Pos(i.Call), fn.Key(), "never-before: Set.Idles() → IP.Allocate(stored pod)", "path: "+p.describePath(w))
+	}
+	c.Floor("C01.R10", "Set.Idles calls in Local.load", 1, len(is))
+	c.Floor("C01.R10", "restoring IP.Allocate calls in Local.load", 1, len(as))
 }
 
 // ---------- R1 lock discipline ----------
